@@ -72,6 +72,9 @@ def kwargs_of(case):
     return kw
 
 
+_INPUT_CHANGED = []
+
+
 def impl_iterfit(case, x=None, y=None, iv=None, use_none=False):
     from pydl.pydlutils.bspline import iterfit
     x = bf_(case['x']) if x is None else x
@@ -80,14 +83,19 @@ def impl_iterfit(case, x=None, y=None, iv=None, use_none=False):
     kw = kwargs_of(case)
     lo = None if case['lower'] is None else core.b2f(case['lower'])
     up = None if case['upper'] is None else core.b2f(case['upper'])
+    xa, ya, iva = x.copy(), y.copy(), iv.copy()
     try:
         with np.errstate(all='ignore'):
             if case.get('positional') and lo is not None and up is not None and not use_none:
                 # documented signature iterfit(xdata, ydata, invvar=None, upper=5, lower=5, ...): the positional call is the same call
-                sset, outmask = iterfit(x.copy(), y.copy(), iv.copy(), up, lo, maxiter=case['maxiter'], **kw)
+                sset, outmask = iterfit(xa, ya, iva, up, lo, maxiter=case['maxiter'], **kw)
             else:
-                sset, outmask = iterfit(x.copy(), y.copy(), invvar=None if use_none else iv.copy(), lower=lo, upper=up,
+                sset, outmask = iterfit(xa, ya, invvar=None if use_none else iva, lower=lo, upper=up,
                                         maxiter=case['maxiter'], **kw)
+        # the caller's arrays are inputs: iterfit works on its own sorted copies (also when the data are already in order)
+        for nm, p_, q_ in (('xdata', xa, x), ('ydata', ya, y), ('invvar', iva, iv)):
+            if not np.array_equal(p_, q_, equal_nan=True) and len(_INPUT_CHANGED) < 20:
+                _INPUT_CHANGED.append((case, nm))
         return {'ok': {'bk': fb(sset.breakpoints), 'bkmask': [bool(v) for v in np.atleast_1d(sset.mask)],
                        'coeff': [float(v) for v in np.atleast_1d(sset.coeff)], 'outmask': [bool(v) for v in np.atleast_1d(outmask)]}}, sset
     except Exception as e:
@@ -409,6 +417,10 @@ def run_cases(ctx, cases):
     models = core.driver_parallel([model_line(c) for c in cases], chunk=100, workers=16)
     for c, (im, sset), mo in zip(cases, impls, models):
         judge(ctx, c, im, sset, mo)
+    while _INPUT_CHANGED:
+        c, nm = _INPUT_CHANGED.pop()
+        ctx.violate('iterfit:modifies-input:' + nm, 'iterfit changed the caller\'s %s array (a second call with the same arrays then sees other data: '
+                    'the weights of rejected points are gone)' % nm, c)
 
 
 def run(ctx):
